@@ -51,6 +51,8 @@ class BuildLock:
         self.f.close()
 
 
+RUNNER_OK = True   # set by ./check: the extracted model runner was built from the current sources
+
 # ------------------------------------------------------------------ builds
 
 def gen_consts():
@@ -58,6 +60,10 @@ def gen_consts():
                   os.path.join(COQ, "gen", "Consts.v")])
     if rc != 0:
         raise BrokenTie("translator gen_consts.py refused the current source", out)
+    rc2, out2 = sh([sys.executable, os.path.join(VERIF, "tools", "gen_synccell.py"),
+                    os.path.join(COQ, "gen", "SyncCellProg.v")])
+    if rc2 != 0:
+        raise BrokenTie("translator gen_synccell.py refused the current source (util/sync_cell.rs, time/monotonic_time.rs)", out2)
     return out
 
 
